@@ -83,6 +83,13 @@ def get_monitor():
     return safety.Monitor(os.path.dirname(yaml.__file__), _named)
 
 
+class _AppValue:
+    """what the application's constructors registered through the module-level helpers build"""
+
+
+APP_D_VALUE = _AppValue()
+
+
 def _warm():
     """Load benign inputs in every form once so that lazy codec imports happen before the monitors are armed."""
     import yaml
@@ -115,6 +122,12 @@ def _warm():
         yaml.add_multi_constructor("!app-m3/", lambda loader, suffix, node: object(), Loader=C)
         yaml.add_implicit_resolver("!app-c3", __import__("re").compile("^app3$"), ["a"], Loader=C, Dumper=type("AppDumperC", (yaml.SafeDumper,), {}))
         yaml.add_path_resolver("!app-c3", ["app-key"], Loader=C, Dumper=type("AppDumperD", (yaml.SafeDumper,), {}))
+    # ... and with no Loader= argument (the documented usage) they register on Loader, FullLoader and UnsafeLoader - never
+    # on the safe or base loaders.  The value they build is one fixed harness object (APP_D_VALUE).
+    yaml.add_constructor("!app-d", lambda loader, node: APP_D_VALUE)
+    yaml.add_multi_constructor("!app-dm/", lambda loader, suffix, node: APP_D_VALUE)
+    yaml.add_implicit_resolver("!app-d", __import__("re").compile("^appd$"), ["a"])
+    yaml.add_path_resolver("!app-d", ["app-key", None])
     _warm.done = True
 
 
